@@ -45,8 +45,10 @@ def dilationOf : Option Nat → Nat | none => 1 | some d => d
 
 /-- PyTorch: output channel `o` of `O` belongs to group `o / (O/groups)` and reads that group's `C/groups` input channels -/
 def grpSpec (O g : Nat) (o : Nat) : Nat := o / (O / g)
-/-- the code (layout `(O/g, g)` of `conv_reshape_weight`): group `o % groups` -/
-def grpCode (g : Nat) (o : Nat) : Nat := o % g
+/-- the code (layout `(g, Og)` of `conv_reshape_weight`, `Og = O/groups` output channels per group): group `o / Og` -/
+def grpCode (Og : Nat) (o : Nat) : Nat := o / Og
+/-- the code before fixes/C17-conv-groups-interleaved (layout `(O/g, g)`): group `o % groups` -/
+def grpInterleaved (g : Nat) (o : Nat) : Nat := o % g
 
 /-- nested-loop conv1d, one output element (`Cg = C/groups` input channels per group, `grp o` the group of output
     channel `o`): `out[n,o,l] = bias[o] + Σ_{c < Cg} Σ_{k < K} xpad[n, grp(o)·Cg + c, l·s + k·d] · w[o,c,k]` -/
